@@ -508,4 +508,548 @@ theorem invW_run {cfg : Cfg} (hC : cfg.refuseDaemonName = true) (h : List Op) {s
   | nil => exact hI
   | cons op r ih => exact ih (invW_step hC op hI)
 
+
+/-! ### the back-pointer invariant -/
+
+/-- every registered pool entity carries the id it is registered under, and this daemon -/
+def Back (s : State) : Prop :=
+  ∀ i e w, lookup i s.objs = some ⟨.ent e, w⟩ → s.pid e = some i ∧ s.pdm e = .this
+
+/-- the step does not give an already registered object a second id by force -/
+def NoAliasOp (s : State) : Op → Prop
+  | .register e ia true _ => ∀ j w, lookup j s.objs = some ⟨.ent e, w⟩ → j = resolveId s ia
+  | _ => True
+
+theorem back_init : Back init := by
+  intro i e w h; rw [lookup_init] at h; split at h <;> simp at h
+
+theorem getId_of_back {s : State} (hB : Back s) {i : Id} {e : Ent} {w : Bool}
+    (h : lookup i s.objs = some ⟨.ent e, w⟩) : getId s e = some i := by
+  have := (hB i e w h).1
+  cases e with
+  | obj k => simp [getId, this]
+  | cls c => simp [getId, this]
+
+theorem getDm_of_back {s : State} (hB : Back s) {i : Id} {e : Ent} {w : Bool}
+    (h : lookup i s.objs = some ⟨.ent e, w⟩) : getDm s e = .this := by
+  have := (hB i e w h).2
+  cases e with
+  | obj k => simp [getDm, this]
+  | cls c => simp [getDm, this]
+
+theorem deref_entry {s : State} (hI : InvW s) {i : Id} {en : Entry} (h : lookup i s.objs = some en) :
+    deref s en = some en.ref := by
+  apply deref_of_alive
+  intro k hk
+  obtain ⟨r, w⟩ := en
+  simp only at hk; subst hk
+  exact hI.alive i k w h
+
+theorem alreadyHasId_of_entry {cfg : Cfg} (hB' : cfg.identityUnpacksWeak = true) {s : State} (hI : InvW s) (hB : Back s)
+    {i : Id} {e : Ent} {w : Bool} (h : lookup i s.objs = some ⟨.ent e, w⟩) : alreadyHasId cfg s e = true := by
+  unfold alreadyHasId
+  rw [getId_of_back hB h]
+  simp only [entryIs, h, hB']
+  have := deref_entry hI h
+  cases w <;> simp [this]
+
+theorem back_regCommit {cfg : Cfg} (hB' : cfg.identityUnpacksWeak = true) {s : State} {e : Ent} {ia : IdArg} {force weak : Bool}
+    (hI : InvW s) (hB : Back s) (hc : regCheck cfg s e ia force weak = none)
+    (hA : NoAliasOp s (.register e ia force weak)) : Back (regCommit s e ia weak) := by
+  have hne : ∀ j w, lookup j s.objs = some ⟨.ent e, w⟩ → j = resolveId s ia := by
+    cases force with
+    | true => exact hA
+    | false =>
+      intro j w h
+      have := (regCheck_none hc).2.2.2.2.1 rfl
+      rw [alreadyHasId_of_entry hB' hI hB h] at this
+      simp at this
+  intro i e' w h
+  simp only [regCommit, lookup_setEntry] at h ⊢
+  by_cases hi : i = resolveId s ia
+  · simp only [hi, if_true, Option.some.injEq, Entry.mk.injEq, Ref.ent.injEq] at h
+    rw [← h.1, hi]; simp [upd]
+  · simp only [hi, if_false] at h
+    have hee : e' ≠ e := by
+      intro he; subst he; exact hi (hne i w h)
+    simp only [upd, hee, if_false]
+    exact hB i e' w h
+
+theorem back_erase {s : State} (i : Id) (hB : Back s) : Back { s with objs := erase i s.objs } := by
+  intro j e w h
+  simp only [lookup_erase] at h
+  split at h
+  · simp at h
+  · exact hB j e w h
+
+theorem unregister_byObj_cases (cfg : Cfg) (s : State) (e : Ent) :
+    (unregister cfg s (.byObj e)).1 = s ∨
+    ∃ i en, getId s e = some i ∧ i ≠ .daemon ∧ lookup i s.objs = some en ∧ isDead s e = false ∧
+      (cfg.unregChecksOwner = true → deref s en = some (.ent e)) ∧
+      unregister cfg s (.byObj e) = delAttrs { s with objs := erase i s.objs } e := by
+  by_cases hd : isDead s e = true
+  · left; simp [unregister, hd]
+  · cases hg : getId s e with
+    | none => left; simp [unregister, hd, hg]
+    | some i =>
+      by_cases hi : i = .daemon
+      · left; simp [unregister, hd, hg, hi]
+      · cases hl : lookup i s.objs with
+        | none => left; simp [unregister, hd, hg, hi, hl]
+        | some en =>
+          by_cases ho : (cfg.unregChecksOwner && !(deref s en == some (.ent e))) = true
+          · left; simp only [unregister, hd, hg, hi, hl, ho]; simp
+          · right
+            refine ⟨i, en, rfl, hi, hl, by simpa using hd, ?_, ?_⟩
+            · intro hD; simpa [hD] using ho
+            · simp only [unregister, hd, hg, hi, hl, ho]; simp
+
+theorem back_unregister {cfg : Cfg} {s : State} (t : Target) (hD : cfg.unregChecksOwner = true) (hB : Back s) :
+    Back (unregister cfg s t).1 := by
+  cases t with
+  | noneArg => exact hB
+  | plain => exact hB
+  | byId i =>
+    simp only [unregister]
+    split
+    · exact hB
+    · exact back_erase _ hB
+  | byObj e =>
+    rcases unregister_byObj_cases cfg s e with h | ⟨i, en, hgi, hi, hl, _, hown, h⟩
+    · rw [h]; exact hB
+    · have hown := hown hD
+      have href := deref_ref hown
+      obtain ⟨r, w⟩ := en
+      simp only at href; subst href
+      have hb := hB i e w hl
+      have hd : delAttrs { s with objs := erase i s.objs } e =
+          ({ s with objs := erase i s.objs, pid := upd s.pid e none, pdm := upd s.pdm e .absent }, .ok) := by
+        simp [delAttrs, hb.1, hb.2]
+      rw [h, hd]
+      intro j e' w' hj'
+      simp only [lookup_erase] at hj'
+      split at hj'
+      · simp at hj'
+      · rename_i hj
+        have hee : e' ≠ e := by
+          intro he; subst he
+          have := (hB j e' w' hj').1
+          rw [hb.1] at this
+          exact hj (by simpa using this.symm)
+        simp only [upd, hee, if_false]
+        exact hB j e' w' hj'
+
+theorem back_gc {cfg : Cfg} {s : State} (k : Nat) (hB : Back s) : Back (gc cfg s k).1 := by
+  unfold gc
+  split
+  · exact hB
+  · split
+    · exact hB
+    · intro i e w h
+      exact hB i e w (foldl_sub cfg k _ _ i _ h)
+
+/-- a registered object returned from a method arrives as the proxy of its id, and nothing changes -/
+theorem returnObj_registered {cfg : Cfg} {s : State} (hI : InvW s) (hB : Back s) {k : Nat} {i : Id} {w : Bool}
+    (h : lookup i s.objs = some ⟨.ent (.obj k), w⟩) (ser : Ser) :
+    returnObj cfg s k ser = (s, .proxy i) := by
+  have hd : s.dead k = false := hI.alive i k w h
+  have hgi := getId_of_back hB h
+  have hgd := getDm_of_back hB h
+  have hde := deref_entry hI h
+  have hown : ownsEntry s k = true := by
+    simp [ownsEntry, registeredRef, hgi, h, hde]
+  have hp : proxyFor s (.byObj (.obj k)) = .proxy i := by
+    simp [proxyFor, uriFor, isDead, hd, hgi, h, hde]
+  simp [returnObj, hd, hgd, hown, hp]
+
+theorem back_returnObj {cfg : Cfg} {s : State} (k : Nat) (ser : Ser) (hI : InvW s) (hB : Back s) :
+    Back (returnObj cfg s k ser).1 := by
+  by_cases hr : ∃ i w, lookup i s.objs = some ⟨.ent (.obj k), w⟩
+  · obtain ⟨i, w, h⟩ := hr
+    rw [returnObj_registered hI hB h]; exact hB
+  · have hf := returnObj_frame cfg s k ser
+    intro i e w h
+    rw [hf.1] at h
+    have hee : e ≠ .obj k := by
+      intro he; subst he; exact hr ⟨i, w, h⟩
+    rw [hf.2.2.2.2.1, hf.2.2.2.2.2 e hee]
+    exact hB i e w h
+
+theorem back_step {cfg : Cfg} (hB' : cfg.identityUnpacksWeak = true) (hD : cfg.unregChecksOwner = true)
+    {s : State} (op : Op) (hI : InvW s) (hB : Back s) (hA : NoAliasOp s op) :
+    Back (step cfg s op).1 := by
+  cases op with
+  | register e ia f w =>
+    simp only [step]
+    rcases register_cases cfg s e ia f w with ⟨r, _, h⟩ | ⟨hc, h⟩
+    · rw [h]; exact hB
+    · rw [h]; exact back_regCommit hB' hI hB hc hA
+  | unregister t => exact back_unregister t hD hB
+  | gc k => exact back_gc k hB
+  | uriFor t => exact hB
+  | proxyFor t => exact hB
+  | call i => exact hB
+  | returnObj k ser => exact back_returnObj k ser hI hB
+  | registered => exact hB
+
+
+/-! ### the abstract registry -/
+
+/-- the specification: a partial map from ids to registered entities (with the weak flag), the set of
+    collected objects, and the id counter.  No attributes on objects, no finalizers. -/
+structure Spec where
+  m : Id → Option Entry
+  dead : Nat → Bool
+  next : Nat
+
+def abs (s : State) : Spec := ⟨fun i => lookup i s.objs, s.dead, s.next⟩
+
+def Spec.init : Spec :=
+  ⟨fun i => if i = .daemon then some ⟨.daemonObj, false⟩ else none, fun _ => false, 0⟩
+
+/-- `e` is registered (under some id) -/
+def Spec.has (σ : Spec) (e : Ent) : Prop := ∃ i w, σ.m i = some ⟨.ent e, w⟩
+
+def Spec.isDead (σ : Spec) : Ent → Bool
+  | .obj k => σ.dead k
+  | .cls _ => false
+
+def Spec.resolve (σ : Spec) : IdArg → Id
+  | .str i => i
+  | _ => .gen σ.next
+
+/-- when the specification refuses a registration: the object is gone, the id is not a string, the id
+    is the daemon's own, a class is to be registered weakly, or — without `force` — the object is
+    registered already or the id is taken -/
+def Spec.refuses (σ : Spec) (e : Ent) (ia : IdArg) (force weak : Bool) : Prop :=
+  σ.isDead e = true ∨ ia = .nonStr ∨ σ.resolve ia = .daemon ∨ (isClass e = true ∧ weak = true) ∨
+  (force = false ∧ (σ.has e ∨ (σ.m (σ.resolve ia)).isSome = true))
+
+open Classical in
+/-- one step of the specification -/
+noncomputable def specStep (σ : Spec) : Op → Spec
+  | .register e ia force weak =>
+    if σ.refuses e ia force weak then σ
+    else { σ with m := upd σ.m (σ.resolve ia) (some ⟨.ent e, weak⟩),
+                  next := if generates ia then σ.next + 1 else σ.next }
+  | .unregister (.byId i) => if i = .daemon then σ else { σ with m := upd σ.m i none }
+  | .unregister (.byObj e) => { σ with m := fun i => (σ.m i).filter (fun en => en.ref ≠ .ent e) }
+  | .unregister _ => σ
+  | .gc k =>
+    if σ.dead k = true ∨ (∃ i, σ.m i = some ⟨.ent (.obj k), false⟩) then σ
+    else { σ with dead := upd σ.dead k true, m := fun i => (σ.m i).filter (fun en => en.ref ≠ .ent (.obj k)) }
+  | _ => σ
+
+noncomputable def specRun (σ : Spec) : List Op → Spec
+  | [] => σ
+  | op :: h => specRun (specStep σ op) h
+
+theorem abs_init : abs init = Spec.init := by
+  simp only [abs, Spec.init]
+  congr 1
+  funext i
+  exact lookup_init i
+
+theorem abs_resolve (s : State) (ia : IdArg) : (abs s).resolve ia = resolveId s ia := by
+  cases ia <;> rfl
+
+theorem abs_isDead (s : State) (e : Ent) : (abs s).isDead e = isDead s e := by
+  cases e <;> rfl
+
+theorem entryIs_has {s : State} {u : Bool} {p : Id} {e : Ent} (h : entryIs s u p e = true) :
+    ∃ w, lookup p s.objs = some ⟨.ent e, w⟩ := by
+  unfold entryIs at h
+  split at h
+  · simp at h
+  · rename_i en hl
+    obtain ⟨r, w⟩ := en
+    split at h
+    · simp only [Bool.and_eq_true, beq_iff_eq] at h
+      have := deref_ref h.2
+      simp only at this; subst this
+      exact ⟨w, hl⟩
+    · simp only [beq_iff_eq] at h
+      subst h
+      exact ⟨w, hl⟩
+
+theorem regCheck_some_refuses {cfg : Cfg} (hC : cfg.refuseDaemonName = true) {s : State} {e : Ent} {ia : IdArg}
+    {force weak : Bool} {r : Res} (h : regCheck cfg s e ia force weak = some r) : (abs s).refuses e ia force weak := by
+  unfold regCheck at h
+  unfold Spec.refuses
+  rw [abs_resolve, abs_isDead]
+  split at h
+  · left; assumption
+  split at h
+  · right; left; assumption
+  split at h
+  · rename_i h3; right; right; left; simpa [hC] using h3
+  split at h
+  · rename_i h4; right; right; right; left; simpa using h4
+  split at h
+  · rename_i h5
+    simp only [Bool.and_eq_true, Bool.not_eq_true'] at h5
+    right; right; right; right
+    refine ⟨h5.1, Or.inl ?_⟩
+    have h5 := h5.2
+    unfold alreadyHasId at h5
+    split at h5
+    · rename_i p _
+      obtain ⟨w, hl⟩ := entryIs_has h5
+      exact ⟨p, w, hl⟩
+    · simp at h5
+  split at h
+  · rename_i h6
+    simp only [Bool.and_eq_true, Bool.not_eq_true'] at h6
+    right; right; right; right
+    exact ⟨h6.1, Or.inr h6.2⟩
+  · simp at h
+
+theorem regCheck_none_not_refuses {cfg : Cfg} (hC : cfg.refuseDaemonName = true) (hB' : cfg.identityUnpacksWeak = true)
+    {s : State} (hI : InvW s) (hB : Back s) {e : Ent} {ia : IdArg}
+    {force weak : Bool} (h : regCheck cfg s e ia force weak = none) : ¬ (abs s).refuses e ia force weak := by
+  obtain ⟨h1, h2, h3, h4, h5, h6⟩ := regCheck_none h
+  unfold Spec.refuses
+  rw [abs_resolve, abs_isDead]
+  rintro (hd | hn | hdm | hcw | ⟨hf, hh | ht⟩)
+  · rw [h1] at hd; simp at hd
+  · exact h2 hn
+  · exact h3 hC hdm
+  · exact h4 hcw
+  · obtain ⟨i, w, hl⟩ := hh
+    have := h5 hf
+    rw [alreadyHasId_of_entry hB' hI hB hl] at this
+    simp at this
+  · have := h6 hf
+    simp only [abs] at ht
+    rw [this] at ht; simp at ht
+
+theorem lookup_of_mem_nodup {l : Objs} (hn : (keys l).Nodup) {i : Id} {en : Entry} (h : (i, en) ∈ l) :
+    lookup i l = some en := by
+  induction l with
+  | nil => simp at h
+  | cons p r ih =>
+    obtain ⟨k, e⟩ := p
+    simp only [keys, List.map_cons, List.nodup_cons, List.mem_map, not_exists, not_and] at hn
+    simp only [List.mem_cons, Prod.mk.injEq] at h
+    simp only [lookup]
+    rcases h with ⟨h1, h2⟩ | h
+    · simp [h1, h2]
+    · have : ¬ k = i := by
+        intro hk; subst hk
+        exact hn.1 (k, en) h rfl
+      simp only [this, if_false]
+      exact ih hn.2 h
+
+theorem stronglyHeld_iff {s : State} (hI : InvW s) (k : Nat) :
+    stronglyHeld k s.objs = true ↔ ∃ i, lookup i s.objs = some ⟨.ent (.obj k), false⟩ := by
+  constructor
+  · intro h
+    unfold stronglyHeld at h
+    rw [List.any_eq_true] at h
+    obtain ⟨⟨i, en⟩, hm, hp⟩ := h
+    obtain ⟨r, w⟩ := en
+    simp only [Bool.and_eq_true, Bool.not_eq_true', decide_eq_true_eq] at hp
+    obtain ⟨hw, hr⟩ := hp
+    subst hw; subst hr
+    exact ⟨i, lookup_of_mem_nodup hI.nodup hm⟩
+  · rintro ⟨i, h⟩
+    exact stronglyHeld_of_lookup h
+
+/-- the concrete step of the repaired code refines the specification step -/
+theorem abs_step {s : State} (op : Op) (hI : InvW s) (hB : Back s) (hA : NoAliasOp s op) :
+    abs (step .fixed s op).1 = specStep (abs s) op := by
+  cases op with
+  | register e ia f w =>
+    simp only [step, specStep]
+    rcases register_cases .fixed s e ia f w with ⟨r, hc, h⟩ | ⟨hc, h⟩
+    · rw [h, if_pos (regCheck_some_refuses rfl hc)]
+    · rw [h, if_neg (regCheck_none_not_refuses rfl rfl hI hB hc)]
+      simp only [abs, regCommit]
+      congr 1
+      funext i
+      simp only [lookup_setEntry, upd]
+      rw [show (Spec.resolve ⟨fun i => lookup i s.objs, s.dead, s.next⟩ ia) = resolveId s ia from abs_resolve s ia]
+  | unregister t =>
+    cases t with
+    | noneArg => rfl
+    | plain => rfl
+    | byId i =>
+      simp only [step, unregister, specStep]
+      split
+      · rfl
+      · simp only [abs]
+        congr 1
+        funext j
+        simp only [lookup_erase, upd]
+    | byObj e =>
+      simp only [step, specStep]
+      by_cases hr : ∃ j w, lookup j s.objs = some ⟨.ent e, w⟩
+      · obtain ⟨j, w, hl⟩ := hr
+        have hb := hB j e w hl
+        have hgi := getId_of_back hB hl
+        have hde := deref_entry hI hl
+        have hj : j ≠ .daemon := by
+          intro hd; subst hd; rw [hI.daemon] at hl; simp at hl
+        have hdead : isDead s e = false := by
+          cases e with
+          | obj k => exact hI.alive j k w hl
+          | cls c => rfl
+        have hu : unregister .fixed s (.byObj e) =
+            ({ s with objs := erase j s.objs, pid := upd s.pid e none, pdm := upd s.pdm e .absent }, .ok) := by
+          simp [unregister, hdead, hgi, hj, hl, hde, Cfg.fixed, delAttrs, hb.1, hb.2]
+        rw [hu]
+        simp only [abs]
+        congr 1
+        funext i
+        simp only [lookup_erase]
+        by_cases hi : i = j
+        · subst hi; simp [hl, Option.filter]
+        · simp only [hi, if_false]
+          cases hx : lookup i s.objs with
+          | none => rfl
+          | some en =>
+            obtain ⟨r, w'⟩ := en
+            have : r ≠ .ent e := by
+              intro hre; subst hre
+              have := (hB i e w' hx).1
+              rw [hb.1] at this
+              exact hi (by simpa using this.symm)
+            simp [Option.filter, this]
+      · have ho : (unregister .fixed s (.byObj e)).1.objs = s.objs ∧
+            (unregister .fixed s (.byObj e)).1.dead = s.dead ∧ (unregister .fixed s (.byObj e)).1.next = s.next := by
+          rcases unregister_byObj_cases .fixed s e with h | ⟨i, en, _, _, hl, _, hown, h⟩
+          · rw [h]; simp
+          · exfalso
+            have := deref_ref (hown rfl)
+            obtain ⟨r, w⟩ := en
+            simp only at this; subst this
+            exact hr ⟨i, w, hl⟩
+        simp only [abs, ho.1, ho.2.1, ho.2.2]
+        congr 1
+        funext i
+        cases hx : lookup i s.objs with
+        | none => rfl
+        | some en =>
+          obtain ⟨r, w'⟩ := en
+          have : r ≠ .ent e := by
+            intro hre; subst hre; exact hr ⟨i, w', hx⟩
+          simp [Option.filter, this]
+  | gc k =>
+    simp only [step, specStep, gc]
+    by_cases hd : s.dead k = true
+    · rw [if_pos hd, if_pos (show (abs s).dead k = true ∨ ∃ i, (abs s).m i = some ⟨.ent (.obj k), false⟩ from Or.inl hd)]
+    · rw [if_neg hd]
+      by_cases hs : stronglyHeld k s.objs = true
+      · rw [if_pos hs, if_pos (show (abs s).dead k = true ∨ ∃ i, (abs s).m i = some ⟨.ent (.obj k), false⟩ from
+          Or.inr ((stronglyHeld_iff hI k).1 hs))]
+      · rw [if_neg hs, if_neg (show ¬ ((abs s).dead k = true ∨ ∃ i, (abs s).m i = some ⟨.ent (.obj k), false⟩) from by
+          rintro (h | h)
+          · exact hd h
+          · exact hs ((stronglyHeld_iff hI k).2 h))]
+        have hs' : stronglyHeld k s.objs = false := by simpa using hs
+        simp only [abs]
+        congr 1
+        funext i
+        cases hx : lookup i s.objs with
+        | none =>
+          cases hy : lookup i (List.foldl (runFin Cfg.fixed k) s.objs
+              (List.map (fun x => x.snd) (List.filter (fun p => decide (p.fst = k)) s.fins))) with
+          | none => rfl
+          | some en' => rw [foldl_sub _ k _ _ i en' hy] at hx; simp at hx
+        | some en =>
+          obtain ⟨r, w⟩ := en
+          by_cases hre : r = .ent (.obj k)
+          · subst hre
+            cases hy : lookup i (List.foldl (runFin Cfg.fixed k) s.objs
+                (List.map (fun x => x.snd) (List.filter (fun p => decide (p.fst = k)) s.fins))) with
+            | none => simp [Option.filter]
+            | some en' =>
+              have := foldl_sub _ k _ _ i en' hy
+              rw [hx] at this
+              simp only [Option.some.injEq] at this
+              subst this
+              exact absurd hy (gc_no_entry hI hs' i w)
+          · have hw : weakOf k ⟨r, w⟩ = false := by simp [weakOf, hre]
+            rw [foldl_keep k _ _ i _ hx hw]
+            simp [Option.filter, hre]
+  | uriFor t => rfl
+  | proxyFor t => rfl
+  | call i => rfl
+  | returnObj k ser =>
+    have hf := returnObj_frame .fixed s k ser
+    simp only [step, specStep, abs, hf.1, hf.2.1, hf.2.2.2.1]
+  | registered => rfl
+
+
+/-! ### histories -/
+
+/-- decidable form of `NoAliasOp` -/
+def noAliasOp (s : State) : Op → Bool
+  | .register e ia true _ => s.objs.all (fun p => decide (p.2.ref ≠ .ent e) || decide (p.1 = resolveId s ia))
+  | _ => true
+
+theorem noAliasOp_sound {s : State} {op : Op} (h : noAliasOp s op = true) : NoAliasOp s op := by
+  cases op with
+  | register e ia f w =>
+    cases f with
+    | false => trivial
+    | true =>
+      intro j w' hl
+      simp only [noAliasOp, List.all_eq_true] at h
+      have := h _ (lookup_mem hl)
+      simpa using this
+  | unregister t => trivial
+  | gc k => trivial
+  | uriFor t => trivial
+  | proxyFor t => trivial
+  | call i => trivial
+  | returnObj k ser => trivial
+  | registered => trivial
+
+/-- the history never gives an object that is registered under another id a second id by `force=True`
+    (forced re-registration under the *same* id, forced take-over of an id held by another object, and
+    everything without `force` are allowed) -/
+def noAliasHist (s : State) : List Op → Bool
+  | [] => true
+  | op :: h => noAliasOp s op && noAliasHist (step .fixed s op).1 h
+
+/-- along such a history of the repaired code all invariants hold and the state abstracts to the
+    specification's state -/
+theorem reach {s : State} (h : List Op) (hI : InvW s) (hB : Back s) (hA : noAliasHist s h = true) :
+    InvW (run .fixed s h) ∧ Back (run .fixed s h) ∧ abs (run .fixed s h) = specRun (abs s) h := by
+  induction h generalizing s with
+  | nil => exact ⟨hI, hB, rfl⟩
+  | cons op r ih =>
+    simp only [noAliasHist, Bool.and_eq_true] at hA
+    have hA1 := noAliasOp_sound hA.1
+    have := ih (invW_step rfl op hI) (back_step rfl rfl op hI hB hA1) hA.2
+    simp only [run, specRun]
+    rw [← abs_step op hI hB hA1]
+    exact this
+
+/-- who answers a call addressed to `i` according to the specification -/
+def specCall (σ : Spec) (i : Id) : Res :=
+  match σ.m i with
+  | none => .unknownObject
+  | some ⟨.ent (.cls c), _⟩ => .inst c
+  | some ⟨r, _⟩ => .reached r
+
+theorem call_eq_specCall {s : State} (hI : InvW s) (i : Id) : call s i = specCall (abs s) i := by
+  unfold call specCall
+  simp only [abs]
+  cases hx : lookup i s.objs with
+  | none => rfl
+  | some en =>
+    simp only [deref_entry hI hx]
+    obtain ⟨r, w⟩ := en
+    cases r with
+    | daemonObj => rfl
+    | ent e => cases e <;> rfl
+
+theorem regCheck_some_not_uri {cfg : Cfg} {s : State} {e : Ent} {ia : IdArg} {f w : Bool} {r : Res}
+    (h : regCheck cfg s e ia f w = some r) (i : Id) : r ≠ .uri i := by
+  unfold regCheck at h
+  repeat (split at h; · (simp only [Option.some.injEq] at h; subst h; simp))
+  simp at h
+
 end Pyro.Registry
